@@ -14,7 +14,7 @@ import numpy as np
 from harness import common as C
 
 HEADER = """From Coq Require Import List ZArith QArith Bool. Import ListNotations.
-From TLV Require Import Base.Shape Base.PyList Base.Tensor Base.Ops Model.Nonneg Corr.C10.
+From TLV Require Import Base.Shape Base.PyList Base.Tensor Base.Ops Model.Nonneg Model.NonnegSign Corr.C10.
 Local Open Scope nat_scope."""
 EPD = "tensorly.decomposition."
 ENTRY = {"nn_cp_mu": EPD + "non_negative_parafac", "nn_cp_hals": EPD + "non_negative_parafac_hals",
@@ -592,13 +592,18 @@ def run(chk):
                        "slices, nn_modes incl. 'all', line search on/off, caps 0-11) + dedicated line-search runs + non_negative_tucker(_hals) with init='svd' on standard-normal data at caps 0/1/5 "
                        "+ parafac2(nn_modes=[0,2], default line search) on signed / sparse slices at odd caps 7/9/11 (140 / 600 runs) + direct solver calls; predicate: every entry of a declared mode, weights, core >= 0; "
                        "a case is non-trivial always (no all-size-1 / all-zero tensors are generated); distinct key = (entry point, shape, class, init, cap, nn_modes, options). "
-                       "part B: dyadic few-bit inputs, model evaluated inside Coq over Q, tolerance atol + 1e-9 (|a|+|b|)")
+                       "part B: dyadic few-bit inputs (formula layer, MU runs) / float inputs (fixed-point runs, initialisers, constrained_parafac, one PARAFAC2 outer iteration), model evaluated "
+                       "inside Coq, tolerance atol + 1e-9 (|a|+|b|). corr:C10-static: the bodies of non_negative_parafac, non_negative_parafac_hals (nn_modes='all'), non_negative_tucker, "
+                       "non_negative_tucker_hals are re-translated from the current source by an ast translator into programs of Model/NonnegSign.v and the sign analysis (sound by "
+                       "C10_sign_analysis_sound) is evaluated on them inside Coq: every assignment of the body, in any order, keeps weights / factors / core entrywise >= 0")
     chk.assumptions = ["exact-arithmetic semantics: floating-point rounding is not modelled (bounded empirically by the toleranced comparison); IEEE inf / NaN are outside the model",
                        "every data- or LAPACK-dependent quantity of the iteration skeletons is an arbitrary function argument (the theorems quantify over all of them); only the formula layer "
                        "and the complete multiplicative-update runs are executed against the implementation",
                        "tl.norm is the Euclidean norm: a rational square root with ~157 correct bits in the executed model, sqrt over R in the proofs",
                        "runs in which the implementation raises (singular solves on degenerate data) return nothing and are not judged"]
-    chk.trusted += ["numpy einsum recomputation of the non_negative_tucker numerators (conditioning test and the formula-level OMuTk cases)",
+    chk.trusted += ["the ast translator harness/props/C10_sign.py (Python expression -> bag-of-entries expression; versioning of re-assigned locals; alias classes for element updates; "
+                    "`return a, b` returns the decomposition first; the specialisation `mode in nn_modes` = True for nn_modes='all')",
+                    "numpy einsum recomputation of the non_negative_tucker numerators (conditioning test and the formula-level OMuTk cases)",
                     "the momentum coefficients of fista are recomputed in Python (data independent) and passed to the model as exact rationals"]
     chk.cov["decomposition_runs_checked"] = stats["checked"]
     chk.cov["runs_with_negative_entries_on_undeclared_modes"] = stats["undeclared_negative"]
@@ -1019,7 +1024,7 @@ def corr_hals_cp(rng, tier):
     its own stopping rule, up to 100 sweeps), executed by the model at the fixed-point carrier"""
     from tensorly.decomposition import non_negative_parafac_hals
     out = []
-    nrun = 8 if tier == "quick" else 40
+    nrun = 6 if tier == "quick" else 40
     for k in range(nrun):
         order = rng.choice([2, 3, 3])
         big = tier != "quick"
@@ -1151,7 +1156,7 @@ def corr_tucker_aset(rng, tier):
     """complete runs of non_negative_tucker_hals(algorithm='active_set'), 0 or 1 outer sweeps, from a user initialisation"""
     from tensorly.decomposition import non_negative_tucker_hals
     out = []
-    nrun = 10 if tier == "quick" else 36
+    nrun = 8 if tier == "quick" else 36
     for k in range(nrun):
         order = rng.choice([2, 3, 3])
         shape = tuple(rng.randint(2, 4 if tier != "quick" else 3) for _ in range(order))
@@ -1246,6 +1251,7 @@ def run_correspondence(chk, rng):
     groups += corr_ccp(rng, chk.tier)
     groups += corr_parafac2_iter(rng, chk.tier)
     groups += corr_line(rng, chk.tier, chk)
+    groups += corr_sign(chk)
     # interleave the groups so that every shard gets a mix of cheap and expensive cases
     nsh = max(1, -(-len(groups) // (9 if chk.tier == "quick" else 15)))
     groups = [g for k in range(nsh) for g in groups[k::nsh]]
@@ -1287,7 +1293,12 @@ def run_correspondence(chk, rng):
     for b in broken:
         chk.broken.append({"what": "correspondence corr:C10 shard not evaluated", "detail": b})
     for i in bad:
-        chk.disagreement("corr:C10 (Model/Nonneg.v vs " + meta[i]["corr"] + ")", meta[i])
+        if meta[i]["corr"].startswith("corr:C10-static"):
+            chk.disagreement(meta[i]["corr"] + ": the sign analysis (Model/NonnegSign.v, theorem C10_sign_analysis_sound) does not establish that the decomposition returned by "
+                             "the CURRENT source of this function is entrywise >= 0 (an assignment to the factors / weights / core whose sign is not derivable: a missing clip / abs, "
+                             "a solver called outside its contract, an initialiser without non_negative=True, ...)", meta[i])
+        else:
+            chk.disagreement("corr:C10 (Model/Nonneg.v vs " + meta[i]["corr"] + ")", meta[i])
     return len(cases)
 
 
@@ -1414,7 +1425,7 @@ def corr_parafac2_iter(rng, tier):
     from tensorly.decomposition import _parafac2 as P2
     from tensorly.cp_tensor import cp_normalize
     out = []
-    nrun = 5 if tier == "quick" else 30
+    nrun = 2 if tier == "quick" else 30          # ~15 CPU s per case (two fixed-point runs of up to 2 x 3 x 100 inner sweeps)
     for k in range(nrun):
         I, J, K = rng.randint(2, 3), rng.randint(2, 4), rng.randint(2, 3)
         R = rng.randint(1, min(J, K, 2))
@@ -1425,7 +1436,7 @@ def corr_parafac2_iter(rng, tier):
         w = np.ones(R) if rng.random() < 0.5 else np.array([rng.choice([0.5, 2.0, 1.5]) for _ in range(R)])
         projs = [np.linalg.qr(np.array([[rng.gauss(0, 1) for _ in range(R)] for _ in range(J)]))[0] for _ in range(I)]
         nm = rng.random() < 0.4
-        nip = rng.choice([1, 2])
+        nip = rng.choice([1, 2]) if tier != "quick" else 1
         st, r = C.call_impl(lambda: parafac2([s_.copy() for s_ in slices], R, n_iter_max=1, init=(w.copy(), [f.copy() for f in Fs], [p.copy() for p in projs]),
                                              nn_modes="all", linesearch=False, normalize_factors=nm, n_iter_parafac=nip, tol=1e-8), timeout=120)
         if st != "ok" or not finite_all(r[0], *r[1]):
@@ -1444,4 +1455,35 @@ def corr_parafac2_iter(rng, tier):
         scale = max(1.0, max(float(np.abs(f).max()) for f in r[1]), float(np.abs(r[0]).max()))
         out.append((op, Fraction(scale) / 10 ** 8, r[0], list(r[1]),
                     {"corr": "parafac2 outer iteration", "slices": slices, "weights": w, "factors": Fs, "normalize": nm, "n_iter_parafac": nip}))
+    return out
+
+
+# ============================================================================= round 5: corr:C10-static -- sign analysis of the regenerated bodies
+SIGN_TARGETS = [
+    # (file under tensorly/, function, sign assumptions on the parameters, `if` tests taken as true for the analysed configuration)
+    ("decomposition/_nn_cp.py", "non_negative_parafac", {"init": "SgNN"}, ()),
+    ("decomposition/_nn_cp.py", "non_negative_parafac_hals", {"init": "SgNN"}, ("mode in nn_modes",)),      # nn_modes='all': every updated mode is declared
+    ("decomposition/_tucker.py", "non_negative_tucker", {}, ()),
+    ("decomposition/_tucker.py", "non_negative_tucker_hals", {}, ()),
+]
+
+
+def corr_sign(chk):
+    """the bodies of the four non_negative_* entry points are re-translated from the CURRENT source (ast, harness/props/C10_sign.py) into programs of
+    Model/NonnegSign.v; Coq evaluates the (proved sound) sign analysis on them: verdict 0 = the returned decomposition is entrywise >= 0 in every
+    reachable state.  Fail closed: an untranslatable construct or a stale specialisation is a broken tie."""
+    from harness.props import C10_sign as S
+    out, info = [], {}
+    for rel, fname, signs, assume in SIGN_TARGETS:
+        path = os.path.join(C.REPO, "tensorly", rel)
+        try:
+            r = S.translate_function(open(path).read(), fname, signs, assume)
+        except (S.Untranslatable, SyntaxError, OSError) as e:
+            chk.broken.append({"what": f"corr:C10-static: {fname} ({rel}) cannot be translated into the sign-analysis language (broken tie)", "detail": str(e)[:300]})
+            continue
+        info[fname] = {k: r[k] for k in ("n_stmts", "n_vars", "n_returns", "unknown_calls")}
+        op = f"(OSign {r['prog']} {r['a0']} {r['ret']})"
+        out.append((op, Fraction(0), [0.0], [], {"corr": f"corr:C10-static {fname}", "file": rel, "function": fname, "assumed_true": list(assume),
+                                                 "parameter_signs": signs, "statements": r["n_stmts"], "variables": r["n_vars"]}))
+    chk.cov["static_sign_analysis"] = info
     return out
